@@ -324,6 +324,26 @@ def sc_ldl(V, P, cfg):
     lfull, D, perm = _ldl_factors(V, cfg, ac)
     A = _ldl_matrix(V, lfull, D, cfg["fherm"])
     _register(V, "ldl", (lfull, D, perm))
+    if V.symbolic and cfg.get("blocks") and list(cfg["perm"]) == list(range(n)):
+        # witnesses for which LAPACK's Bunch-Kaufman pivoting really takes a 2x2 block WITHOUT a row interchange
+        # (|a_kk| and |a_k+1,k+1| below alpha |a_k+1,k|, alpha ~ 0.64): a preference for the replay only, no restriction
+        def _abs2(e):
+            return (e.re * e.re + e.im * e.im) if isinstance(e, C) else (R.of(e) * R.of(e))
+        Ad = np.asarray(A)
+        k = 0
+        prefs = []
+        for bsz in cfg["blocks"]:
+            if bsz == 2:
+                off = _abs2(Ad[k + 1, k])
+                for dd in (Ad[k, k], Ad[k + 1, k + 1]):
+                    cnd = (4 * _abs2(dd) <= off)
+                    if isinstance(cnd, SB):
+                        prefs.append(cnd.t)
+            k += bsz
+        if prefs:
+            if not hasattr(V.c, "witness_prefs"):
+                V.c.witness_prefs = []
+            V.c.witness_prefs.extend(prefs)
     s = SolverDenseLDL(hermitian=cfg["hermitian"])
     if cfg.get("prior"):
         A0 = _empty(V, (n, n), ac)
